@@ -1004,6 +1004,11 @@ func init() {
 	timeMsModel["(time.Time).UnixMilli"] = func(in *Interp, s *State, c *callCtx) (Value, []*State, bool) {
 		return ext(c.args[0]), nil, true
 	}
+	// UnixNano of such a value is its millisecond count times 10^6 modulo 2^64, exactly what the
+	// real method computes (sec*1e9 + nsec in wrapping int64 arithmetic).
+	timeMsModel["(time.Time).UnixNano"] = func(in *Interp, s *State, c *callCtx) (Value, []*State, bool) {
+		return in.ts.Mul(ext(c.args[0]), in.ts.Const(64, 1000000)), nil, true
+	}
 	timeMsModel["(time.Time).Before"] = func(in *Interp, s *State, c *callCtx) (Value, []*State, bool) {
 		return in.ts.Slt(ext(c.args[0]), ext(c.args[1])), nil, true
 	}
